@@ -1,7 +1,9 @@
 """C07 — a molecular grid is the weighted concatenation of its atomic grids."""
+import copy
 import importlib
 import io
 import math
+import types
 
 import numpy as np
 
@@ -30,7 +32,15 @@ LEVEL_TEXT = (
     "pinned as text (call_sites_pinned); therefore from_preset / from_size / from_pruned = MolGrid(atnums, [AtomGrid... "
     "built by hand with the same arguments], aim_weights or BeckeWeights(order=3), store) exception for exception "
     "(fromPreset_/fromSize_/fromPruned_eq_hand_built, prunedSectors_spec, radiusAtom_spec, defaultRgrid_spec, "
-    "defaultRgrid_table_ok). AtomGrid and BeckeWeights are given components (C05, C06). "
+    "defaultRgrid_table_ok). Round 2: MolGrid.__init__ (zero-initialised arrays, the enumerate loop with its item and slice "
+    "assignments, the callable / ndarray / else dispatch of the aim weights with its size guard, super().__init__), "
+    "get_atomic_grid and __getitem__ are translated statement by statement from the current source into Lean do-blocks over "
+    "hand-written NumPy list primitives, and proved equal to the hand model for all inputs, exceptions included "
+    "(init_loop_step, init_loop_spec = the loop invariant, gen_init_eq_model, gen_init_overwrites_zeros, "
+    "gen_getAtomicGrid_eq_model, gen_getItem_eq_model); molgrid_slices and the per-atom statements assume what "
+    "Grid.__init__ guarantees for every grid object, len(points) = len(weights) of each atomic grid (a duck-typed object with "
+    "one point and several weights is broadcast by NumPy, not rejected: modelled, AtGrid.segPoints; molgrid_shape needs no "
+    "assumption). AtomGrid and BeckeWeights are given components (C05, C06). "
     "Exploration only (labelled, no theorem): the end-to-end clause — preset grids with the default radial grids integrate "
     "sums of normalised atom-centred Gaussians (exponents 0.3-30, 1-5 atoms >= 1.2 bohr apart) to the total charge within "
     "1 % — is sampled on the implementation, over the (preset, element) combinations for which a preset grid with the default "
@@ -38,11 +48,14 @@ LEVEL_TEXT = (
     "rejection, outside the clause; they are sampled with a radial grid of the prescribed size as a labelled extension)."
 )
 TECHNIQUE = ("Lean 4 proof over a hand model (concatenation / slices / decomposition / store independence / fan-out) + AST "
-             "translator for the per-atom selection code + differential correspondence (model vs implementation on small "
-             "arrays; constructor-built vs hand-built grids bit for bit) + sampled end-to-end integration (exploration)")
+             "translator for the per-atom selection code and (statement by statement) for __init__, get_atomic_grid, "
+             "__getitem__, with gen = model theorems + differential correspondence (generated and hand model vs "
+             "implementation on small arrays; constructor-built vs hand-built grids bit for bit) + sampled end-to-end "
+             "integration (exploration)")
 GEN = ["molgrid"]
 LEAN_MODULES = ["GridVerif.Props.C07"]
 THEOREMS = [
+    "GridVerif.C07.molgrid_shape",
     "GridVerif.C07.molgrid_slices",
     "GridVerif.C07.weights_spec",
     "GridVerif.C07.aim_array_size",
@@ -68,6 +81,13 @@ THEOREMS = [
     "GridVerif.C07.fromPruned_eq_hand_built",
     "GridVerif.C07.defaultRgrid_spec",
     "GridVerif.C07.defaultRgrid_table_ok",
+    # round 2: the constructor and the accessors as generated code (Gen.MolGrid.init_loop / init / getAtomicGrid / getItem)
+    "GridVerif.C07.init_loop_step",
+    "GridVerif.C07.init_loop_spec",
+    "GridVerif.C07.gen_init_eq_model",
+    "GridVerif.C07.gen_init_overwrites_zeros",
+    "GridVerif.C07.gen_getAtomicGrid_eq_model",
+    "GridVerif.C07.gen_getItem_eq_model",
 ]
 RULE = (
     "correspondence (a) model vs implementation on random small per-atom arrays (1-4 atoms, 0-4 points each, "
@@ -86,13 +106,36 @@ RULE = (
     "x 1-5 atoms >= 1.2 bohr apart x exponents 0.3-30 (end points always included) x random charges and rotation seeds. "
     "EXTENSION (outside the clause, never a violation, recorded in coverage.end_to_end_exploration): the shell-count presets "
     "(sg_0, sg_2, sg_3, g1..g7, sg_1 for Z > 18), for which the default radial grid is rejected, are sampled with the "
-    "element's default PowerRTransform applied to UniformInteger(n), n = the number of radial points the preset prescribes"
+    "element's default PowerRTransform applied to UniformInteger(n), n = the number of radial points the preset prescribes. "
+    "ROUND 2: (a) runs both the generated constructor / accessors (Gen.MolGrid.init, getAtomicGrid, getItem: the text translated "
+    "from the current source) and the hand model against the implementation, includes duck-typed atomic grids whose number of "
+    "points differs from their number of weights (one point: broadcast by NumPy; else ValueError), aim weights given or returned "
+    "as int64 / int32 / float32 / bool / non-contiguous / read-only arrays or lists (weights must be the float64 product, the "
+    "given object must be kept unmodified), atnums as list / int32 / float arrays. Oracle additions (implementation vs grids "
+    "built by hand from float64 / int64 data, bit for bit; every replay snippet is the oracle itself): input kinds and call "
+    "paths of from_preset / from_size / from_pruned one axis at a time and in random combinations (atnums as int32 / uint8 / "
+    "list / tuple / float; atcoords as list / float32 / non-contiguous / read-only / Fortran order; the radial grid as one "
+    "object, list, list of the same object, list of equal copies, dict keyed by int or np.int64, None; presets as str / list / "
+    "dict, upper / mixed case names; rotate 0 / True / False / large / np.int64 / np.int32; store; aim default / explicit Becke / "
+    "array; positional / keyword / defaults; radius float / np.float64 / np.float32 / int / list / array / tuple; d_sectors, "
+    "s_sectors, both; sizes 1 .. 5810, np.int64 size), both values of store compared, stored radial grid objects compared by "
+    "identity, caller's arrays compared before / after; input classes the library rejects consistently are labelled branches "
+    "(coverage.input_kinds), not failures; aim weights kinds on MolGrid(...) with integrate(f1, f2, ...), int / bool / float32 / "
+    "non-contiguous / read-only integrands, np.int64 / int32 / uint8 indices of get_atomic_grid / __getitem__; every preset "
+    "name on elements at the edges of the preset and default-radial-grid tables (Z = 1, 2, 18, 19, 20, 36, 37, 54, 55, 57, 58, "
+    "72, 82, 83, 86): MolGrid.from_preset and AtomGrid.from_preset by hand must accept / reject together and agree; call "
+    "histories (the same constructors with overlapping arguments in different orders, reversed molecules, shared rgrid / "
+    "coordinate objects): every call vs the hand-built grid at that moment, vs the first call with the same arguments, and vs "
+    "the same construction alone in a fresh interpreter (hash). oracle_at turns a correspondence disagreement into a property "
+    "evaluation at that input"
 )
 TRUSTED_BASE = [
     "Lean 4.33 kernel; axioms propext, Classical.choice, Quot.sound only (audited per theorem)",
     "hand model Model/MolGrid.lean of MolGrid.__init__/get_atomic_grid/__getitem__/integrate/save and of the loops of "
     "from_preset/from_size/from_pruned, tied by correspondence",
-    "translator harness/translate/molgrid.py (isinstance chains -> pattern matching on PyArg; call sites as text)",
+    "translator harness/translate/molgrid.py (isinstance chains -> pattern matching on PyArg; call sites as text; "
+    "__init__ / get_atomic_grid / __getitem__ statement by statement over the primitives npZeros, npSum, pySetItem, "
+    "pySetSlice, pyForEnum, pyGet, pySlice, mulBroadcast, mkLocalGrid of Model/MolGrid.lean, which are hand-written)",
     "NumPy slice assignment / slicing / broadcasting, Python list/dict indexing, zip/enumerate as modelled",
 ]
 ASSUMPTIONS = [
@@ -141,28 +184,81 @@ def _fmat3(rows):
     return " ".join([str(len(rows)), "3"] + [f2b(x) for r in rows for x in r])
 
 
-def _small_case(ctx: Ctx, bg):
+# always-run edge cases of the constructor: (points per atom, aim kind, length of the aim array / callable result or None).
+# Thresholds of the size guard and of NumPy's broadcasting: empty grids, one-point grids, lengths size-1, size, size+1, 1.
+FORCED_SMALL = [
+    ([0], "arrbad", 1), ([0], "arr", None), ([0, 0], "arrbad", 1), ([0, 0], "arrbad", 2), ([0], "cb1", None), ([0], "cbarr", 2),
+    ([1], "arrbad", 2), ([1], "arrbad", 0), ([1], "cbarr", 2), ([1], "cbarr", 0), ([1], "cb1", None), ([1, 0], "cbarr", 3),
+    ([2], "arrbad", 1), ([2], "arrbad", 3), ([2], "cb1", None), ([2], "cbarr", 1), ([2], "cbarr", 3), ([1, 0, 2], "arrbad", 1),
+    ([1, 1], "arrbad", 1), ([3, 0, 1], "arr", None), ([0, 2, 0], "cbZ", None), ([2, 2], "cbshort", None), ([1], "cbshort", None),
+    ([], "arr", None), ([], "cbZ", None), ([], "other", None), ([1, 2], "other", None),
+]
+
+
+def _small_case(ctx: Ctx, bg, forced=None):
     rng = ctx.rng
-    n = rng.choice([0, 1, 1, 1, 2, 2, 2, 2, 3, 3, 3, 4, 4])
+    n = rng.choice([0, 1, 1, 1, 2, 2, 2, 2, 3, 3, 3, 4, 4]) if forced is None else len(forced[0])
     grids, parts = [], []
-    for _ in range(n):
-        k = rng.choice([0, 1, 1, 2, 2, 3, 4])
-        pts = np.array([[rng.uniform(-3, 3) for _ in range(3)] for _ in range(k)], dtype=float).reshape(k, 3)
+    duck = False
+    for ia in range(n):
+        k = rng.choice([0, 1, 1, 2, 2, 3, 4]) if forced is None else forced[0][ia]
+        kp = k
+        if forced is None and rng.random() < 0.06:
+            # a duck-typed "atomic grid" whose number of points differs from its number of weights (a Grid object cannot
+            # be built like that): NumPy broadcasts a single point over the segment and rejects everything else
+            kp = rng.choice([x for x in (0, 1, 1, 1, 2, 3) if x != k])
+            duck = True
+        pts = np.array([[rng.uniform(-3, 3) for _ in range(3)] for _ in range(kp)], dtype=float).reshape(kp, 3)
         w = np.array([rng.choice([rng.uniform(0.01, 2.0), rng.uniform(-1, 1)]) for _ in range(k)], dtype=float)
         c = np.array([rng.uniform(-2, 2) for _ in range(3)])
-        grids.append(bg.LocalGrid(pts, w, c))
+        if kp == k:
+            grids.append(bg.LocalGrid(pts, w, c))
+        else:
+            grids.append(types.SimpleNamespace(points=pts, weights=w, center=c, size=w.size))
         parts.append(f"{_fmat3(pts)} {fvec(w)} {fvec(c)}")
     size = sum(g.size for g in grids)
     atnums = [rng.choice(ELEMENTS) for _ in range(n)]
-    kind = rng.choice(["arr", "arr", "arr", "arr1", "arrbad", "other", "cbZ", "cbZ", "cb1", "cbshort"])
+    kind = rng.choice(["arr", "arr", "arr", "arr1", "arrbad", "other", "cbZ", "cbZ", "cb1", "cbshort", "arrk", "arrk", "cbarr", "cbarr"])
+    aimvals = None
+    if forced is not None:
+        kind = forced[1]
     if kind == "arr":
         a = np.array([rng.uniform(0, 1) for _ in range(size)])
         aim, aimtok = a, "arr " + fvec(a)
+    elif kind in ("arrk", "cbarr"):
+        # the same numbers in another dtype / container / memory layout: the model gets their float64 values
+        sub = rng.choice(["int64", "int32", "float32", "bool", "noncontig", "readonly"] + (["list", "badlen"] if kind == "cbarr" else []))
+        m = size if sub != "badlen" else size + rng.choice([1, 2])
+        if forced is not None and forced[2] is not None:
+            sub, m = "len", forced[2]
+        if sub in ("int64", "int32"):
+            vals = np.array([rng.randrange(0, 4) for _ in range(m)], dtype=float)
+        elif sub == "bool":
+            vals = np.array([rng.randrange(0, 2) for _ in range(m)], dtype=float)
+        else:
+            vals = np.array([rng.uniform(0, 1) for _ in range(m)]).astype(np.float32).astype(float)
+        if sub in ("int64", "int32", "float32", "bool"):
+            obj = vals.astype(sub)
+        elif sub == "noncontig":
+            obj = np.repeat(vals, 2)[::2]
+        elif sub == "readonly":
+            obj = vals.copy()
+            obj.setflags(write=False)
+        elif sub == "list":
+            obj = vals.tolist()
+        else:
+            obj = vals.copy()
+        if kind == "arrk":
+            aim, aimtok = obj, "arr " + fvec(vals)
+        else:
+            aim, aimtok = (lambda p, c, z, i, obj=obj: obj), "cbarr " + fvec(vals)
+        kind = f"{kind}:{sub}"
+        aimvals = (obj, copy.deepcopy(obj))
     elif kind == "arr1":
         a = np.ones(size)
         aim, aimtok = a, "arr " + fvec(a)
     elif kind == "arrbad":
-        m = max(0, size + rng.choice([-1, 1, 2]))
+        m = max(0, size + rng.choice([-1, 1, 2])) if forced is None else forced[2]
         a = np.array([rng.uniform(0, 1) for _ in range(m)])
         aim, aimtok = a, "arr " + fvec(a)
     elif kind == "other":
@@ -179,13 +275,25 @@ def _small_case(ctx: Ctx, bg):
         aim, aimtok = (lambda p, c, z, i, c1=c1: np.array([c1])), "cb1 " + f2b(c1)
     else:
         aim, aimtok = (lambda p, c, z, i: np.ones(max(len(p) - 1, 0))), "cbshort"
+    base_kind = kind.split(":")[0]
+    if base_kind in ("arr", "arr1", "arrbad"):
+        aimspec = ("array", [float(x) for x in aim])
+    elif base_kind in ("arrk", "cbarr"):
+        aimspec = ("array" if base_kind == "arrk" else "callable", [float(x) for x in np.asarray(aimvals[1], dtype=float)])
+    elif base_kind == "cb1":
+        aimspec = ("callable", [float(c1)])
+    else:
+        aimspec = ({"cbZ": "cbZ", "cbshort": "callable-short", "other": "other"}[base_kind], None)
     body = f"{aimtok} {vec(atnums)} {n} " + " ".join(parts)
-    return dict(n=n, grids=grids, atnums=atnums, aim=aim, kind=kind, size=size, body=body)
+    atk = rng.choice(["int64", "int64", "int32", "list", "float64"])
+    return dict(n=n, grids=grids, atnums=atnums, aim=aim, kind=kind, size=size, body=body, duck=duck, aimvals=aimvals, atk=atk, aimspec=aimspec)
 
 
 def _impl_init(mg, case, store):
+    atk = case.get("atk", "int64")
+    atnums = list(case["atnums"]) if atk == "list" else np.array(case["atnums"], dtype=atk)   # only the callable sees them
     try:
-        m = mg.MolGrid(np.array(case["atnums"]), case["grids"], case["aim"], store=store)
+        m = mg.MolGrid(atnums, case["grids"], case["aim"], store=store)
     except Exception as e:  # noqa: BLE001
         return _tag(e), None
     return "ok", m
@@ -210,18 +318,21 @@ def _cmp_sub(tok: Tokens, g, is_stored_obj):
 
 def _corr_small(ctx: Ctx, mg, bg):
     ncase = ctx.n(140, 2500)
-    cases = [_small_case(ctx, bg) for _ in range(ncase)]
+    cases = [_small_case(ctx, bg, forced=f) for f in FORCED_SMALL] + [_small_case(ctx, bg) for _ in range(ncase)]
     lines, meta = [], []
     for ci, case in enumerate(cases):
         for store in (False, True):
             spec = f"{int(store)} {case['body']}"
-            lines.append("C07.init " + spec)
-            meta.append((ci, store, "init", None))
             n = case["n"]
-            for idx in range(-n - 2, n + 2):
-                for which in ("atomic", "item"):
-                    lines.append(f"C07.get {which} {idx} {spec}")
-                    meta.append((ci, store, which, idx))
+            # "" = the generated constructor / accessors (Gen.MolGrid.*, translated from the current source),
+            # "h" = the hand model the theorems are stated about
+            for pre in ("", "h"):
+                lines.append(f"C07.{pre}init " + spec)
+                meta.append((ci, store, pre + "init", None))
+                for idx in range(-n - 2, n + 2):
+                    for which in ("atomic", "item"):
+                        lines.append(f"C07.{pre}get {which} {idx} {spec}")
+                        meta.append((ci, store, pre + which, idx))
             f = np.array([ctx.rng.uniform(-2, 2) for _ in range(case["size"])])
             lines.append(f"C07.integrate {fvec(f)} {spec}")
             meta.append((ci, store, "integrate", f))
@@ -232,22 +343,29 @@ def _corr_small(ctx: Ctx, mg, bg):
     built = {}
     for (ci, store, op, arg), ans in zip(meta, answers):
         case = cases[ci]
+        side = "gen"
+        if op in ("hinit", "hatomic", "hitem"):
+            op, side = op[1:], "hand"
         if (ci, store) not in built:
             built[(ci, store)] = _impl_init(mg, case, store)
         status, m = built[(ci, store)]
-        nontriv = case["n"] >= 2 and case["kind"] in ("arr", "cbZ", "cb1")
-        canon = [op, int(store), case["kind"], case["atnums"], [g.size for g in case["grids"]],
-                 arg if not isinstance(arg, np.ndarray) else len(arg)]
-        wit = {"op": op, "store": store, "aim": case["kind"], "atnums": case["atnums"],
-               "sizes": [g.size for g in case["grids"]], "arg": arg, "model": ans[:300]}
+        nontriv = case["n"] >= 2 and case["kind"].split(":")[0] in ("arr", "cbZ", "cb1", "arrk", "cbarr")
+        canon = [op, side, int(store), case["kind"], case["atnums"], [g.size for g in case["grids"]],
+                 [len(g.points) for g in case["grids"]], arg if not isinstance(arg, np.ndarray) else len(arg)]
+        wit = {"op": op, "model_side": side, "store": store, "aim": case["kind"], "atnums": case["atnums"],
+               "sizes": [g.size for g in case["grids"]], "npoints": [len(g.points) for g in case["grids"]],
+               "grids": [[g.points, g.weights, g.center] for g in case["grids"]], "aimspec": case["aimspec"], "arg": arg,
+               "model": ans[:300]}
+        dk = ":duck" if case["duck"] else ""
+        mdl = "generated model (Gen.MolGrid)" if side == "gen" else "hand model"
         if op == "init":
-            ctx.count(canon, nontrivial=nontriv, tag=f"init:{case['kind']}:" + ("ok" if status == "ok" else status))
+            ctx.count(canon, nontrivial=nontriv, tag=f"init:{side}:{case['kind']}{dk}:" + ("ok" if status == "ok" else status))
             if status != "ok":
                 if ans != status:
-                    ctx.fail("corr", "init:error", f"MolGrid(...) raised {status}, model answers {ans[:60]}", witness=wit)
+                    ctx.fail("corr", "init:error", f"MolGrid(...) raised {status}, {mdl} answers {ans[:60]}", witness=wit)
                 continue
             if not ans.startswith("ok "):
-                ctx.fail("corr", "init:error", f"MolGrid(...) succeeded, model answers {ans}", witness=wit)
+                ctx.fail("corr", "init:error", f"MolGrid(...) succeeded, {mdl} answers {ans}", witness=wit)
                 continue
             t = Tokens(ans)
             t.tok()
@@ -273,13 +391,20 @@ def _corr_small(ctx: Ctx, mg, bg):
                 bad = "atgrids stored / not stored"
             elif m.size != len(w):
                 bad = "size"
+            elif m.weights.dtype != np.float64:
+                bad = f"dtype of weights is {m.weights.dtype}"
+            elif case["aimvals"] is not None and not (
+                    m.aim_weights is case["aimvals"][0] and type(case["aimvals"][0]) is type(case["aimvals"][1])
+                    and np.array_equal(np.asarray(case["aimvals"][0]), np.asarray(case["aimvals"][1]))
+                    and getattr(case["aimvals"][0], "dtype", None) == getattr(case["aimvals"][1], "dtype", None)):
+                bad = "aim-object modified or replaced (the given / returned aim weights must be kept as they are)"
             if bad:
-                ctx.fail("corr", "init:" + bad.split()[0], f"MolGrid.__init__ vs model: {bad}", witness=wit)
+                ctx.fail("corr", "init:" + bad.split()[0], f"MolGrid.__init__ vs {mdl}: {bad}", witness=wit)
             continue
         if status != "ok":
             # every operation of the model on a failed construction repeats the constructor's error
             if ans != status:
-                ctx.fail("corr", f"{op}:after-error", f"constructor raised {status}, model op answers {ans[:60]}", witness=wit)
+                ctx.fail("corr", f"{op}:after-error", f"constructor raised {status}, {mdl} op answers {ans[:60]}", witness=wit)
             continue
         if op in ("atomic", "item"):
             try:
@@ -288,19 +413,19 @@ def _corr_small(ctx: Ctx, mg, bg):
             except Exception as e:  # noqa: BLE001
                 impl, g = _tag(e), None
             branch = "neg" if arg < 0 else ("in" if arg < case["n"] else "beyond")
-            ctx.count(canon, nontrivial=nontriv, tag=f"{op}:store={int(store)}:{branch}:{impl if impl != 'ok' else 'ok'}")
+            ctx.count(canon, nontrivial=nontriv, tag=f"{op}:{side}:store={int(store)}:{branch}:{impl if impl != 'ok' else 'ok'}")
             if impl != "ok":
                 if ans != impl:
-                    ctx.fail("corr", f"{op}:error", f"{op}({arg}) store={store}: implementation {impl}, model {ans[:60]}", witness=wit)
+                    ctx.fail("corr", f"{op}:error", f"{op}({arg}) store={store}: implementation {impl}, {mdl} {ans[:60]}", witness=wit)
                 continue
             if not ans.startswith("ok "):
-                ctx.fail("corr", f"{op}:error", f"{op}({arg}) store={store}: implementation returned a grid, model {ans}", witness=wit)
+                ctx.fail("corr", f"{op}:error", f"{op}({arg}) store={store}: implementation returned a grid, {mdl} {ans}", witness=wit)
                 continue
             t = Tokens(ans)
             t.tok()
             bad = _cmp_sub(t, g, any(g is a for a in case["grids"]))
             if bad:
-                ctx.fail("corr", f"{op}:{bad.split()[0]}", f"{op}({arg}) store={store}: {bad} differ between implementation and model", witness=wit)
+                ctx.fail("corr", f"{op}:{bad.split()[0]}", f"{op}({arg}) store={store}: {bad} differ between implementation and {mdl}", witness=wit)
             continue
         if op == "integrate":
             try:
@@ -311,17 +436,17 @@ def _corr_small(ctx: Ctx, mg, bg):
             ctx.count(canon, nontrivial=nontriv, tag=f"integrate:{impl}")
             if impl != "ok":
                 if ans != impl:
-                    ctx.fail("corr", "integrate:error", f"integrate: implementation {impl}, model {ans[:60]}", witness=wit)
+                    ctx.fail("corr", "integrate:error", f"integrate: implementation {impl}, {mdl} {ans[:60]}", witness=wit)
                 continue
             if not ans.startswith("ok "):
-                ctx.fail("corr", "integrate:error", f"integrate: implementation {val}, model {ans}", witness=wit)
+                ctx.fail("corr", "integrate:error", f"integrate: implementation {val}, {mdl} {ans}", witness=wit)
                 continue
             t = Tokens(ans)
             t.tok()
             mv = t.flt()
             scale = float(np.sum(np.abs(m.weights * arg))) if len(arg) == m.size else 1.0
             if not close(val, mv, rtol=1e-13, atol=1e-300, scale=max(scale, 1e-300)):
-                ctx.fail("corr", "integrate:value", f"integrate: implementation {val!r}, model {mv!r}", witness=wit)
+                ctx.fail("corr", "integrate:value", f"integrate: implementation {val!r}, {mdl} {mv!r}", witness=wit)
 
 
 # ------------------------------------------------------------------------------------------
@@ -412,7 +537,7 @@ def _compare_molgrids(ctx, name, got, ref, wit):
 def _run_fanout(ctx, name, mg, ag, bk, pool, line, call, hand, atnums, atcoords, store, aimkind, aim, nontriv, canon, ans):
     """call(aim) -> MolGrid via the convenience constructor; hand(sel) -> AtomGrid built by hand from one atom's
     model selection; ans = model answer."""
-    wit = {"constructor": name, "line": line, "model": ans[:200]}
+    wit = {"constructor": name, "line": line, "model": ans[:200], "atnums": atnums, "coords": atcoords, "store": store, "canon": canon}
     # aim weights as an array need the size: take it from a first construction with Becke weights
     def build(a):
         try:
@@ -999,9 +1124,640 @@ def _oracle_end_to_end(ctx: Ctx, budget, mg, ag):
         ctx.info(f"extension (outside the clause): relative error above 1 % with prescribed-size Power/UniformInteger radial grids: {over}")
 
 
+# ------------------------------------------------------------------------------------------
+# round 2: input kinds, call paths, call histories — the implementation against grids built by hand in float64
+# (the replay snippets themselves are the oracles: PRELUDE + "P = {...}" + BODY is exec'd)
+# ------------------------------------------------------------------------------------------
+KINDS_PRELUDE = r"""import warnings; warnings.filterwarnings('ignore')
+import copy, hashlib, math, os, subprocess, sys
+import numpy as np
+from grid.molgrid import MolGrid, _generate_default_rgrid
+from grid.atomgrid import AtomGrid
+from grid.becke import BeckeWeights
+from grid.onedgrid import GaussLaguerre, UniformInteger
+from grid.rtransform import PowerRTransform
+ATTRS = ('indices', 'points', 'weights', 'atweights', 'aim_weights', 'atcoords')
+REJECTED = None
+NOTES = []
+def same(key, a, b, what, attrs=ATTRS):
+    for t in attrs:
+        x, y = np.asarray(getattr(a, t), dtype=float), np.asarray(getattr(b, t), dtype=float)
+        assert x.shape == y.shape and np.array_equal(x, y, equal_nan=True), (
+            f'{key} :: {what}: {t} differs' + (f' (shapes {x.shape} / {y.shape})' if x.shape != y.shape else f' (max deviation {np.nanmax(np.abs(x - y)):.3g})'))
+def digest(m):
+    h = hashlib.sha256()
+    for t in ATTRS:
+        h.update(np.ascontiguousarray(np.asarray(getattr(m, t), dtype=float)).tobytes())
+    return h.hexdigest()
+def as_kind(a, kind):
+    # the same numbers in another container / dtype / memory layout
+    a = np.asarray(a)
+    if kind in ('float64', 'int64'): return np.array(a, dtype=kind)
+    if kind in ('int32', 'uint8', 'float32', 'bool'): return np.array(a).astype(kind)
+    if kind == 'list': return a.tolist()
+    if kind == 'tuple': return tuple(a.tolist())
+    if kind == 'noncontig':
+        b = np.repeat(np.array(a), 2, axis=0)[::2]
+        assert not b.flags['C_CONTIGUOUS'] or b.size <= 1
+        return b
+    if kind == 'readonly':
+        b = np.array(a); b.setflags(write=False); return b
+    if kind == 'fortran': return np.asfortranarray(np.array(a))
+    raise KeyError(kind)
+def unchanged(key, obj, snap, what):
+    ok = type(obj) is type(snap) and (np.array_equal(np.asarray(obj), np.asarray(snap)) if not isinstance(obj, dict) else list(obj) == list(snap))
+    if isinstance(obj, np.ndarray):
+        ok = ok and obj.dtype == snap.dtype and obj.shape == snap.shape
+    assert ok, f'{key} :: the caller\'s {what} was modified by the call'
+"""
+
+# -- constructor argument kinds / call paths ------------------------------------------------
+KINDS_BODY = r"""
+ctor, n, KEY = P['ctor'], len(P['atnums']), P['key']
+atn64 = np.array(P['atnums'], dtype=np.int64)
+co64 = np.array(P['coords'], dtype=float)
+rot = P['rotate']
+if isinstance(rot, str):
+    rot_ref = int(rot.split(':')[1]); rotate = getattr(np, rot.split(':')[0])(rot_ref)
+else:
+    rotate, rot_ref = rot, int(rot)
+store = P['store']
+elems = sorted(set(P['atnums']))
+def key_of(z, form): return np.int64(z) if form.endswith('npint64') else int(z)
+# ---- radial grids: canonical per-atom objects and the argument in the requested form
+R0 = GaussLaguerre(P['nrad'][0])
+form = P['rgrid_form']
+rg_el = {z: GaussLaguerre(P['nrad'][k % len(P['nrad'])]) for k, z in enumerate(elems)}
+if form == 'single': per_rg, rgrid = [R0] * n, R0
+elif form == 'list': per_rg = [GaussLaguerre(P['nrad'][i % len(P['nrad'])]) for i in range(n)]; rgrid = list(per_rg)
+elif form == 'list-same-object': per_rg = [R0] * n; rgrid = [R0] * n
+elif form == 'list-copies': rgrid = [copy.deepcopy(R0) for _ in range(n)]; per_rg = [R0] * n
+elif form.startswith('dict'): per_rg = [rg_el[z] for z in P['atnums']]; rgrid = {key_of(z, form): rg_el[z] for z in elems}
+elif form == 'none': per_rg = [_generate_default_rgrid(z) for z in P['atnums']]; rgrid = None
+else: raise KeyError(form)
+given_rg = per_rg if form != 'list-copies' else rgrid
+# ---- presets
+names = ['coarse', 'medium', 'fine']
+pr_el = {z: names[k % 3] for k, z in enumerate(elems)}
+pform = P.get('preset_form', 'single')
+per_pr = [names[P.get('preset0', 0) % 3]] * n if pform == 'single' else ([names[i % 3] for i in range(n)] if pform == 'list' else [pr_el[z] for z in P['atnums']])
+case = {'lower': str.lower, 'upper': str.upper, 'title': str.title}[P.get('preset_case', 'lower')]
+preset = case(per_pr[0]) if pform == 'single' else ([case(x) for x in per_pr] if pform == 'list' else {key_of(z, pform): case(pr_el[z]) for z in elems})
+# ---- pruning sectors
+rs = [[0.5, 1.0][: i % 3] for i in range(n)]
+ds = [[3, 5, 7][: len(r) + 1] for r in rs]
+ss = [[6, 14, 26][: len(r) + 1] for r in rs]
+rk = P.get('radius_kind', 'list')
+rad_ref = [1.5] * n if rk in ('float', 'np.float64', 'np.float32') else ([1.0] * n if rk == 'int' else [0.75 + 0.25 * i for i in range(n)])
+radius = {'float': 1.5, 'np.float64': np.float64(1.5), 'np.float32': np.float32(1.5), 'int': 1, 'list': list(rad_ref),
+          'array': np.array(rad_ref), 'tuple': tuple(rad_ref)}[rk]
+dk = P.get('d_kind', 'd')
+use_s = dk != 'd'
+d_arg = ds if dk in ('d', 'both') else ('junk' if dk == 'both-junk' else None)
+s_arg = ss if use_s else None
+# ---- atomic numbers / coordinates in the requested kind
+atnums = as_kind(atn64, P['atnums_kind'])
+coords = as_kind(co64, P['coords_kind'])
+size = P.get('size', 14)
+size_arg = np.int64(size) if P.get('size_kind') == 'np.int64' else size
+def hand(i):
+    if ctor == 'from_preset':
+        return AtomGrid.from_preset(atnum=int(atn64[i]), preset=per_pr[i], rgrid=per_rg[i], center=co64[i], rotate=rot_ref)
+    if ctor == 'from_size':
+        return AtomGrid(per_rg[i], degrees=None, sizes=[size], center=co64[i], rotate=rot_ref)
+    return AtomGrid.from_pruned(per_rg[i], rad_ref[i], r_sectors=rs[i], d_sectors=None if use_s else ds[i],
+                                s_sectors=ss[i] if use_s else None, center=co64[i], rotate=rot_ref)
+hand_grids = [hand(i) for i in range(n)]
+total = sum(g.size for g in hand_grids)
+aimk = P['aim']
+A = np.random.default_rng(P['seed']).uniform(0, 1, total)
+aim = {'default': None, 'becke': BeckeWeights(order=3), 'array': A}[aimk]
+ref = MolGrid(atn64, hand_grids, A.copy() if aimk == 'array' else BeckeWeights(order=3), store=store)
+snaps = [copy.deepcopy(x) for x in (atnums, coords, A)]
+def call():
+    kw = P['call'] == 'kw'
+    if P['call'] == 'defaults':
+        # aim_weights, rotate (and store) left to their defaults: None -> BeckeWeights(order=3), 37, False
+        extra = {'store': True} if store else {}
+        if ctor == 'from_preset': return MolGrid.from_preset(atnums, coords, preset, rgrid, **extra)
+        if ctor == 'from_size': return MolGrid.from_size(atnums, coords, size_arg, rgrid, **extra)
+        return MolGrid.from_pruned(atnums, coords, radius, rs, ds, rgrid=rgrid, **extra)
+    if ctor == 'from_preset':
+        if kw: return MolGrid.from_preset(atnums=atnums, atcoords=coords, preset=preset, rgrid=rgrid, aim_weights=aim, rotate=rotate, store=store)
+        return MolGrid.from_preset(atnums, coords, preset, rgrid, aim, rotate, store)
+    if ctor == 'from_size':
+        if kw: return MolGrid.from_size(atnums=atnums, atcoords=coords, size=size_arg, rgrid=rgrid, aim_weights=aim, rotate=rotate, store=store)
+        return MolGrid.from_size(atnums, coords, size_arg, rgrid, aim, rotate, store)
+    d_kw = {} if d_arg is None else {'d_sectors': d_arg}
+    if kw: return MolGrid.from_pruned(atnums=atnums, atcoords=coords, radius=radius, r_sectors=rs, s_sectors=s_arg, rgrid=rgrid, aim_weights=aim, rotate=rotate, store=store, **d_kw)
+    if d_arg is None: return MolGrid.from_pruned(atnums, coords, radius, rs, s_sectors=s_arg, rgrid=rgrid, aim_weights=aim, rotate=rotate, store=store)
+    return MolGrid.from_pruned(atnums, coords, radius, rs, d_arg, s_sectors=s_arg, rgrid=rgrid, aim_weights=aim, rotate=rotate, store=store)
+what = f"MolGrid.{ctor} with " + ", ".join(f"{k}={P[k]!r}" for k in P['axes'])
+try:
+    got = call()
+except Exception as e:
+    REJECTED = type(e).__name__
+    assert P['reject_ok'], f'{KEY} :: {what} raises {REJECTED}: {str(e)[:120]}, although the atomic grids are built by hand from the same data'
+else:
+    same(KEY, got, ref, what + ' vs MolGrid(atnums, [grids built by hand, float64 / int64 data], aim, store)')
+    assert (got.atgrids is not None) == bool(store), f'{KEY} :: {what}: the atgrids attribute does not follow store'
+    if store:
+        for i in range(n):
+            assert np.array_equal(got.atgrids[i].points, hand_grids[i].points) and np.array_equal(got.atgrids[i].weights, hand_grids[i].weights), (
+                f'{KEY} :: {what}: stored atomic grid {i} is not the grid built by hand')
+            if form != 'none':
+                assert got.atgrids[i].rgrid is given_rg[i], f'{KEY} :: {what}: stored atomic grid {i} does not hold the radial grid object given for it'
+    for obj, snap, nm in zip((atnums, coords, A), snaps, ('atnums', 'atcoords', 'aim_weights array')):
+        unchanged(KEY, obj, snap, nm)
+    # both values of store give the same grid
+    other = None
+    try:
+        store = not store
+        other = call()
+    finally:
+        store = not store
+    same(KEY, got, other, what + f': store={store} vs store={not store}')
+"""
+
+# -- aim weights kinds, integrate, index kinds, keyword construction -------------------------------
+AIM_BODY = r"""
+KEY = P['key']
+atn = np.array(P['atnums']); co = np.array(P['coords'], dtype=float); n = len(atn)
+ats = [AtomGrid(GaussLaguerre(P['nrad'][i]), degrees=[P['degs'][i]], center=co[i], rotate=P['rots'][i]) for i in range(n)]
+size = sum(g.size for g in ats)
+rs = np.random.default_rng(P['seed'])
+route, kind = P['aim_kind'].split(':')
+if kind in ('int64', 'int32', 'uint8'): base = rs.integers(0, 4, size).astype(float)
+elif kind == 'bool': base = rs.integers(0, 2, size).astype(float)
+else:
+    base = rs.uniform(0, 1, size).astype(np.float32).astype(float)   # representable in float32
+    if size >= 3: base[0], base[size // 2], base[-1] = 0.0, 2.0 ** -40, 1.0   # the end points of [0, 1] and a tiny weight
+obj = as_kind(base, kind)
+snap = copy.deepcopy(obj)
+atw = np.concatenate([g.weights for g in ats])
+ref_w = atw * base
+what = f'aim weights given as {route} ' + ('returning ' if route == 'callable' else '') + f'a {kind} ' + ('array' if kind not in ('list', 'tuple') else '')
+aim = obj if route == 'array' else (lambda points, atcoords, atnums, indices: obj)
+store = P['store']
+try:
+    m = MolGrid(atn, ats, aim, store=store) if P['call'] == 'pos' else MolGrid(atnums=atn, atgrids=ats, aim_weights=aim, store=store)
+except Exception as e:
+    REJECTED = type(e).__name__
+    assert P['reject_ok'], f'{KEY} :: MolGrid(...) with {what} raises {REJECTED}: {str(e)[:120]}'
+else:
+    assert m.weights.dtype == np.float64 and m.weights.shape == (size,) and np.array_equal(m.weights, ref_w), (
+        f'{KEY} :: {what}: weights are not the float64 product atweights * aim_weights (max deviation '
+        f'{np.max(np.abs(np.asarray(m.weights, float).reshape(-1)[:size] - ref_w)) if np.size(m.weights) == size else "shape"})')
+    assert np.array_equal(np.asarray(m.aim_weights, dtype=float), base), f'{KEY} :: {what}: aim_weights attribute does not hold the given values'
+    assert m.aim_weights is obj, f'{KEY} :: {what}: aim_weights attribute is not the given / returned object'
+    unchanged(KEY, obj, snap, 'aim weights (' + what + ')')
+    assert np.array_equal(m.atweights, atw) and np.array_equal(m.points, np.concatenate([g.points for g in ats])), f'{KEY} :: {what}: points / atweights are not the concatenation'
+    # ---- integrate: several arrays at once, other dtypes / layouts
+    ind = [int(x) for x in m.indices]
+    f1 = rs.uniform(-1, 1, size); f2 = rs.uniform(-1, 1, size)
+    fi = rs.integers(-3, 4, size); fb = rs.integers(0, 2, size).astype(bool)
+    for nm, arrs in (('f', (f1,)), ('f1, f2', (f1, f2)), ('f1, f2, f1', (f1, f2, f1)), ('int64 array', (fi,)), ('bool array', (fb,)),
+                     ('float32 array', (f1.astype(np.float32),)), ('non-contiguous array', (as_kind(f1, 'noncontig'),)),
+                     ('read-only array', (as_kind(f1, 'readonly'),)), ('f, int array, bool array', (f2, fi, fb))):
+        prod = np.ones(size)
+        for a in arrs: prod = prod * np.asarray(a, dtype=float)
+        want = math.fsum((ref_w * prod).tolist())
+        gotv = float(m.integrate(*arrs))
+        scale = math.fsum(np.abs(ref_w * prod).tolist())
+        assert abs(gotv - want) <= 1e-12 * scale + 1e-300, f'{KEY} :: integrate({nm}) = {gotv!r}, but sum(weights * product) = {want!r}'
+        parts = math.fsum(float(ats[k].integrate(base[ind[k]:ind[k + 1]] * prod[ind[k]:ind[k + 1]])) for k in range(n))
+        assert abs(gotv - parts) <= 1e-12 * scale + 1e-300, f'{KEY} :: integrate({nm}) = {gotv!r}, but the atomic integrals of aim*f sum to {parts!r}'
+    # ---- index kinds
+    for k in range(n):
+        for ik in ('int64', 'int32', 'uint8'):
+            ix = getattr(np, ik)(k)
+            for nm, f in (('get_atomic_grid', m.get_atomic_grid), ('__getitem__', m.__getitem__)):
+                a, b = f(k), f(ix)
+                assert np.array_equal(a.points, b.points) and np.array_equal(a.weights, b.weights) and np.array_equal(a.center, b.center) and type(a) is type(b), (
+                    f'{KEY} :: {nm}(np.{ik}({k})) differs from {nm}({k}) (store={store})')
+        g = m.get_atomic_grid(np.int64(k))
+        assert np.array_equal(g.points, ats[k].points) and np.array_equal(g.weights, ats[k].weights), f'{KEY} :: get_atomic_grid(np.int64({k})) is not atomic grid {k}'
+    for bad in (np.int64(-1), np.int32(-n)):
+        try:
+            m.get_atomic_grid(bad); ok = True
+        except ValueError:
+            ok = False
+        assert not ok, f'{KEY} :: get_atomic_grid({bad!r}) is not rejected'
+"""
+
+# -- every preset name x elements at the edges of the tables ------------------------------------------
+PRESET_BODY = r"""
+from grid.atomgrid import _get_rgrid_size
+KEY = P['key']
+zs = P['atnums']; co = np.array(P['coords'], dtype=float); n = len(zs)
+name = {'lower': str.lower, 'upper': str.upper, 'title': str.title}[P['case']](P['preset'])
+def rg_for(z):
+    if P['rgrid'] == 'default':
+        return _generate_default_rgrid(z)
+    npt = int(_get_rgrid_size(P['preset'], atnums=int(z))[0]) if P['rgrid'] == 'prescribed' else P['rgrid']
+    return PowerRTransform(1e-3, 12.0).transform_1d_grid(UniformInteger(npt))
+ones = lambda points, atcoords, atnums, indices: np.ones(len(points))
+hand, herr = [], None
+for i, z in enumerate(zs):
+    try:
+        rg = rg_for(z)
+        hand.append(AtomGrid.from_preset(atnum=z, preset=name, rgrid=rg, center=co[i], rotate=P['rotate']))
+    except Exception as e:
+        herr = type(e).__name__
+        break
+rgs = None
+if P['rgrid'] != 'default':
+    try:
+        rgs = {z: rg_for(z) for z in set(zs)}
+    except Exception:
+        rgs = 'unavailable'
+what = f"MolGrid.from_preset(atnums={zs}, preset={name!r}, rgrid={'None' if P['rgrid'] == 'default' else P['rgrid']})"
+if rgs == 'unavailable':
+    REJECTED = 'no-prescribed-size:' + str(herr)
+else:
+    try:
+        got = MolGrid.from_preset(np.array(zs), co, name, rgs, ones, rotate=P['rotate'], store=P['store'])
+        gerr = None
+    except Exception as e:
+        gerr = type(e).__name__
+    assert gerr == herr, f'{KEY} :: {what}: ' + (f'raises {gerr}' if gerr else 'succeeds') + ', building the atomic grids by hand with AtomGrid.from_preset ' + (f'raises {herr}' if herr else 'succeeds')
+    if gerr is not None:
+        REJECTED = gerr
+    else:
+        ref = MolGrid(np.array(zs), hand, ones, store=P['store'])
+        same(KEY, got, ref, what + ' vs the grid built by hand')
+"""
+
+# -- call histories: state carried between calls, shared argument objects, fresh-process reference --------------
+HISTORY_BODY = r"""
+KEY = P['key']
+R0 = GaussLaguerre(P['nrad'])
+mols = [(np.array(z), np.array(c, dtype=float)) for z, c in P['mols']]
+aims = {}
+def build(step, how):
+    mi, ctor, opt, store = step
+    atn, co = mols[mi]; n = len(atn)
+    if ctor == 'from_preset':
+        name = ['coarse', 'medium', 'fine'][opt % 3]
+        if how == 'ctor': return MolGrid.from_preset(atn, co, name, R0, aims.get((mi, ctor, opt)), rotate=P['rotate'], store=store)
+        gs = [AtomGrid.from_preset(atnum=int(atn[i]), preset=name, rgrid=R0, center=co[i], rotate=P['rotate']) for i in range(n)]
+    elif ctor == 'from_size':
+        size = [6, 14, 26][opt % 3]
+        if how == 'ctor': return MolGrid.from_size(atn, co, size, R0, aims.get((mi, ctor, opt)), rotate=P['rotate'], store=store)
+        gs = [AtomGrid(R0, degrees=None, sizes=[size], center=co[i], rotate=P['rotate']) for i in range(n)]
+    else:
+        rsec = [[0.5, 1.0][: (i + opt) % 3] for i in range(n)]; dsec = [[3, 5, 7][: len(r) + 1] for r in rsec]
+        if how == 'ctor': return MolGrid.from_pruned(atn, co, 1.25, rsec, dsec, rgrid=R0, aim_weights=aims.get((mi, ctor, opt)), rotate=P['rotate'], store=store)
+        gs = [AtomGrid.from_pruned(R0, 1.25, r_sectors=rsec[i], d_sectors=dsec[i], center=co[i], rotate=P['rotate']) for i in range(n)]
+    a = aims.get((mi, ctor, opt))
+    return MolGrid(atn, gs, a if a is not None else BeckeWeights(order=3), store=store)
+first, DIGESTS = {}, {}
+snap_mols = copy.deepcopy(mols); snap_r = (R0.points.copy(), R0.weights.copy())
+for k, step in enumerate(P['steps']):
+    mi, ctor, opt, store = step
+    sk = (mi, ctor, opt)
+    if P['array_aim'] and sk not in aims:
+        sz = build((mi, ctor, opt, False), 'hand').size
+        aims[sk] = np.random.default_rng(P['seed'] + 1000 * mi + 10 * opt + len(ctor)).uniform(0, 1, sz)
+    got = build(step, 'ctor')
+    ref = build(step, 'hand')
+    what = f'call {k} of the history {P["steps"]} (molecule {mi}: {mols[mi][0].tolist()}, MolGrid.{ctor}, option {opt}, store={store})'
+    same(KEY, got, ref, what + ' vs the grid built by hand at that moment')
+    if sk in first:
+        same(KEY, got, first[sk], what + ' vs the first call with the same arguments')
+    else:
+        first[sk] = got
+    DIGESTS[repr(sk)] = digest(got)
+for (a, b), (c, d) in zip(mols, snap_mols):
+    assert np.array_equal(a, c) and np.array_equal(b, d), f'{KEY} :: the shared atnums / atcoords arrays were modified during the history'
+assert np.array_equal(R0.points, snap_r[0]) and np.array_equal(R0.weights, snap_r[1]), f'{KEY} :: the shared radial grid was modified during the history'
+# the same constructions, each alone in a fresh interpreter
+procs = []
+for sk in P['fresh']:
+    code = P['prelude'] + 'P = ' + repr(dict(P, steps=[list(sk) + [False]], fresh=[], prelude='')) + P['body'] + "\nprint('DIGEST', DIGESTS[repr(tuple(P['steps'][0][:3]))])\n"
+    env = dict(os.environ, PYTHONPATH=os.pathsep.join(p for p in sys.path if p))
+    procs.append((sk, subprocess.Popen([sys.executable, '-c', code], stdout=subprocess.PIPE, stderr=subprocess.PIPE, text=True, env=env, cwd='/')))
+for sk, pr in procs:
+    out, err = pr.communicate(timeout=600)
+    lines = [ln.split()[1] for ln in out.splitlines() if ln.startswith('DIGEST ')]
+    if pr.returncode != 0 or len(lines) != 1:
+        NOTES.append(f'fresh interpreter for {sk} failed: {err.strip().splitlines()[-1][:200] if err.strip() else out[:100]}')
+        continue
+    assert lines[0] == DIGESTS[repr(tuple(sk))], (
+        f'{KEY} :: MolGrid.{sk[1]} (molecule {mols[sk[0]][0].tolist()}, option {sk[2]}) built after the history {P["steps"]} differs from the same '
+        'construction alone in a fresh interpreter (points / weights / atweights / aim_weights / indices / atcoords compared by hash)')
+"""
+
+
+EXPECT_REJECT = {
+    # (constructor or '*', axis, variant) -> what the pinned tree answers: consistent rejections of an input class
+    # (labelled branches, reported as information; everything not listed here must be accepted and equal the reference)
+    ("from_pruned", "atnums_kind", "list"): "AttributeError",     # atnums.size
+    ("from_pruned", "atnums_kind", "tuple"): "AttributeError",
+    ("from_preset", "atnums_kind", "float64"): "KeyError",       # AtomGrid.from_preset formats '<atnum>_rad' with 1.0
+    ("from_preset", "coords_kind", "list"): "AttributeError",     # atcoords.ndim
+    ("from_pruned", "coords_kind", "list"): "AttributeError",
+    ("*", "rotate", "int64:5"): "ValueError",                     # AtomGrid._generate_atomic_grid: isinstance(rotate, int)
+    ("*", "rotate", "int32:5"): "ValueError",
+    ("from_preset", "preset_case", "upper"): "FileNotFoundError",  # preset names are file names, case-sensitive
+    ("from_preset", "preset_case", "title"): "FileNotFoundError",
+    ("from_pruned", "radius_kind", "np.float32"): "IndexError",   # only float / np.float64 are repeated per atom
+    ("from_pruned", "radius_kind", "int"): "TypeError",
+}
+KIND_AXES = {
+    "atnums_kind": ["int64", "int32", "uint8", "list", "tuple", "float64"],
+    "coords_kind": ["float64", "list", "float32", "noncontig", "readonly", "fortran"],
+    "rgrid_form": ["single", "list", "list-same-object", "list-copies", "dict-int", "dict-npint64", "none"],
+    "rotate": [37, 0, True, False, 12345, "int64:5", "int32:5"],
+    "store": [False, True],
+    "aim": ["default", "becke", "array"],
+    "call": ["pos", "kw", "defaults"],
+}
+KIND_AXES_CTOR = {
+    "from_preset": {"preset_form": ["single", "list", "dict-int", "dict-npint64"], "preset_case": ["lower", "upper", "title"]},
+    "from_size": {"rgrid_form": ["single", "none"], "size": [14, 6, 26, 1, 5810], "size_kind": ["int", "np.int64"]},
+    "from_pruned": {"radius_kind": ["list", "float", "np.float64", "array", "tuple", "np.float32", "int"],
+                    "d_kind": ["d", "s", "both", "both-junk"]},
+}
+EDGE_ELEMENTS = [1, 2, 18, 19, 20, 36, 37, 54, 55, 57, 58, 72, 82, 83, 86]
+SHELL_PRESETS = ["sg_0", "sg_1", "sg_2", "sg_3", "g1", "g2", "g3", "g4", "g5", "g6", "g7"]
+
+
+def _lattice_mol(ctx, n, step=0.125, box=2.5, dmin=1.2):
+    """n centres >= dmin apart with coordinates on a 1/8 lattice (exactly representable in float32)"""
+    pts = []
+    while len(pts) < n:
+        p = np.array([round(ctx.rng.uniform(-box, box) / step) * step for _ in range(3)])
+        if all(np.linalg.norm(p - q) >= dmin for q in pts):
+            pts.append(p)
+    return [list(map(float, p)) for p in pts]
+
+
+def _run_snippet(ctx, body, P, tag, nontrivial=True):
+    """exec PRELUDE + P + body (the replay snippet is the oracle). -> (namespace or None)"""
+    code = KINDS_PRELUDE + "P = " + repr(P) + "\n" + body
+    ns = {"__name__": "c07_kinds"}
+    try:
+        exec(compile(code, "<c07-kinds>", "exec"), ns)
+    except AssertionError as e:
+        key, _, what = str(e).partition(" :: ")
+        ctx.count([tag, {k: v for k, v in P.items() if k not in ("prelude", "body")}], nontrivial=nontrivial, tag=tag + ":FAIL")
+        ctx.fail("oracle", key.strip() if what else P["key"], (what or str(e))[:500],
+                 witness={k: v for k, v in P.items() if k not in ("prelude", "body")}, snippet=code)
+        return None
+    rej = ns.get("REJECTED")
+    ctx.count([tag, {k: v for k, v in P.items() if k not in ("prelude", "body")}], nontrivial=nontrivial,
+              tag=tag + (f":rejected:{rej}" if rej else ":ok"))
+    for note in ns.get("NOTES", []):
+        ctx.info(note)
+    return ns
+
+
+def _kinds_params(ctx, ctor, overrides, axes):
+    rng = ctx.rng
+    n = rng.choice([2, 2, 3, 3, 4])
+    atnums = [rng.choice(ELEMENTS) for _ in range(n)]
+    if len(set(atnums)) == 1:
+        atnums[-1] = rng.choice([z for z in ELEMENTS if z != atnums[0]])
+    P = dict(ctor=ctor, atnums=atnums, coords=_lattice_mol(ctx, n), nrad=[rng.choice([4, 5, 6]), rng.choice([4, 5, 7]), 6],
+             atnums_kind="int64", coords_kind="float64", rgrid_form="single", rotate=rng.choice([37, 37, 0, rng.randrange(1, 10 ** 6)]),
+             store=rng.random() < 0.5, aim=rng.choice(["default", "array"]), call="pos", seed=rng.randrange(2 ** 31),
+             preset_form="single", preset_case="lower", preset0=rng.randrange(3), radius_kind="list", d_kind="d", size=14, size_kind="int")
+    P.update(overrides)
+    if P["call"] == "defaults":
+        P.update(rotate=37, aim="default", d_kind="d")
+    if ctor == "from_size" and P["rgrid_form"] not in ("single", "none"):
+        P["rgrid_form"] = "single"
+    if P["size"] == 5810:
+        P["nrad"] = [4, 4, 4]
+    P["axes"] = list(axes)
+    rej = [EXPECT_REJECT.get((c, a, P[a] if not isinstance(P[a], (list, dict)) else None)) for a in axes for c in (ctor, "*")]
+    P["reject_ok"] = any(rej)
+    P["key"] = f"molgrid.MolGrid.{ctor}:kinds:" + ("+".join(axes) if axes else "baseline")
+    return P
+
+
+def _oracle_kinds(ctx: Ctx, budget):
+    """classes 2, 3, 4, 6 of the round-2 guide for the three convenience constructors: one axis at a time from a random
+    baseline, then random combinations; every accepted input must give the grid built by hand from float64 / int64 data"""
+    rng = ctx.rng
+    large = budget == "large" or ctx.thorough
+    seen_rej = {}
+    for ctor in ("from_preset", "from_size", "from_pruned"):
+        axes = dict(KIND_AXES)
+        axes.update(KIND_AXES_CTOR[ctor])
+        cases = [({}, [])]
+        for axis, variants in axes.items():
+            for v in variants[1:] if axis not in ("size",) else variants[1:]:
+                cases.append(({axis: v}, [axis]))
+        # explicit pairs: the dtype of atnums decides the type of the dict key `atnums[i]` (np.int64 / np.int32 / np.uint8 / int)
+        if ctor != "from_size":
+            for ak in ("int32", "uint8", "list"):
+                for rf in ("dict-int", "dict-npint64"):
+                    if (ctor, "atnums_kind", ak) in EXPECT_REJECT:
+                        continue
+                    cases.append(({"atnums_kind": ak, "rgrid_form": rf}, ["atnums_kind", "rgrid_form"]))
+                    if ctor == "from_preset":
+                        cases.append(({"atnums_kind": ak, "preset_form": rf}, ["atnums_kind", "preset_form"]))
+        else:
+            for ak in ("int32", "uint8", "list", "tuple", "float64"):       # _generate_default_rgrid: `atnum in dict`, `int(atnum)`
+                cases.append(({"atnums_kind": ak, "rgrid_form": "none"}, ["atnums_kind", "rgrid_form"]))
+        for _ in range(120 if large else 8):
+            chosen = rng.sample(sorted(axes), rng.choice([2, 2, 3]))
+            cases.append(({a: rng.choice(axes[a]) for a in chosen}, chosen))
+        for ov, ax in cases:
+            P = _kinds_params(ctx, ctor, ov, ax)
+            ns = _run_snippet(ctx, KINDS_BODY, P, f"oracle:kinds:{ctor}:" + ",".join(f"{a}={P[a]}" for a in ax))
+            if ns is not None and ns.get("REJECTED"):
+                seen_rej.setdefault((ctor, tuple((a, str(P[a])) for a in ax), ns["REJECTED"]), 0)
+            elif ns is not None and P["reject_ok"] and len(ax) == 1:
+                ctx.info(f"MolGrid.{ctor} now accepts {ax[0]}={P[ax[0]]!r} (listed as a rejected input class) and gives the reference grid")
+    if seen_rej:
+        single = sorted({f"{c}({a[0][0]}={a[0][1]}): {e}" for (c, a, e) in seen_rej if len(a) == 1})
+        ctx.info("input classes rejected consistently by the convenience constructors (labelled branches, not failures): " + "; ".join(single))
+    ctx.extra.setdefault("input_kinds", {})["rejected_classes"] = sorted(
+        {f"{c}:{','.join(f'{k}={v}' for k, v in a)}:{e}" for (c, a, e) in seen_rej})
+
+
+def _oracle_aim_kinds(ctx: Ctx, budget):
+    rng = ctx.rng
+    large = budget == "large" or ctx.thorough
+    kinds = ["float64", "int64", "int32", "uint8", "float32", "bool", "noncontig", "readonly"]
+    todo = [f"array:{k}" for k in kinds] + [f"callable:{k}" for k in kinds + ["list", "tuple"]]
+    for rep in range(4 if large else 1):
+        for ak in todo:
+            n = rng.choice([1, 2, 2, 3, 4])
+            P = dict(key="molgrid.MolGrid.__init__:aim-kinds:" + ak.split(":")[0], atnums=[rng.choice(ELEMENTS) for _ in range(n)], coords=_lattice_mol(ctx, n),
+                     nrad=[rng.choice([3, 4, 5]) for _ in range(n)], degs=[rng.choice([3, 5, 7]) for _ in range(n)],
+                     rots=[rng.choice([0, 37, rng.randrange(10 ** 6)]) for _ in range(n)], seed=rng.randrange(2 ** 31), aim_kind=ak,
+                     store=rng.random() < 0.5, call=rng.choice(["pos", "kw"]), reject_ok=False)
+            _run_snippet(ctx, AIM_BODY, P, f"oracle:aim-kinds:{ak}", nontrivial=n >= 2)
+
+
+def _oracle_presets(ctx: Ctx, budget):
+    """every preset name (and its upper / mixed case spellings) on elements at the edges of the preset tables and of the
+    default-radial-grid table: MolGrid.from_preset and AtomGrid.from_preset by hand accept / reject together and agree"""
+    rng = ctx.rng
+    large = budget == "large" or ctx.thorough
+    rejected = {}
+    for preset in PRESETS_ALL:
+        modes = ["prescribed"] if preset in SHELL_PRESETS else [rng.choice([7, 9])]
+        modes.append("default")
+        heavy = preset in ("veryfine", "ultrafine", "insane", "sg_2", "sg_3", "g4", "g5", "g6", "g7")
+        if ctx.thorough:
+            pairs = [[z, rng.choice(EDGE_ELEMENTS)] for z in (rng.sample(EDGE_ELEMENTS, 5) if heavy else EDGE_ELEMENTS)]
+        elif large:
+            pairs = [rng.sample(EDGE_ELEMENTS, 2) for _ in range(2 if heavy else 4)]
+        else:
+            pairs = [rng.sample(EDGE_ELEMENTS, 2)]
+            if preset in ("sg_1",):
+                pairs.append([18, 19])
+        for zs in pairs:
+            for mode in modes:
+                if mode == "default" and not large and preset in ("veryfine", "ultrafine", "insane") and rng.random() < 0.7:
+                    continue
+                cases = ["lower"] + (["upper", "title"] if (large or rng.random() < 0.3) and mode != "default" else [])
+                for case in cases:
+                    if case != "lower" and str.upper(preset) == preset:
+                        continue
+                    P = dict(key=f"molgrid.MolGrid.from_preset:preset-table:{preset}", preset=preset, case=case, atnums=zs,
+                             coords=_lattice_mol(ctx, 2, dmin=2.0), rgrid=mode, rotate=rng.choice([0, 37]), store=rng.random() < 0.5)
+                    ns = _run_snippet(ctx, PRESET_BODY, P, f"oracle:presets:{preset}:{case}:{'default-rgrid' if mode == 'default' else 'given-rgrid'}")
+                    if ns is not None and ns.get("REJECTED"):
+                        rejected.setdefault(f"{preset if case == 'lower' else {'upper': preset.upper(), 'title': preset.title()}[case]}"
+                                            f"/{'rgrid=None' if mode == 'default' else 'rgrid given'}", set()).add(f"Z={zs}: {ns['REJECTED']}")
+    ctx.extra.setdefault("input_kinds", {})["preset_rejections_consistent_with_hand_built"] = {k: sorted(v)[:6] for k, v in sorted(rejected.items())}
+
+
+def _oracle_history(ctx: Ctx, budget):
+    """class 1 (state carried between calls) and class 3 (shared argument objects): the constructors called several times
+    with overlapping arguments in different orders; every call against the grid built by hand at that moment, repeated calls
+    against the first one, and finally against the same construction alone in a fresh interpreter"""
+    rng = ctx.rng
+    large = budget == "large" or ctx.thorough
+    for rep in range(6 if large else 2):
+        mols = []
+        base = [rng.choice(ELEMENTS) for _ in range(rng.choice([2, 3]))]
+        co = _lattice_mol(ctx, len(base))
+        mols.append((base, co))
+        mols.append((base[::-1], co))                       # same centres, elements reversed
+        mols.append((base, co[::-1]))                       # same elements, centres reversed
+        other = [rng.choice(ELEMENTS) for _ in range(2)]
+        mols.append((other, _lattice_mol(ctx, 2)))
+        pool = [(mi, c, o) for mi in range(len(mols)) for c in ("from_preset", "from_size", "from_pruned") for o in (0, 1)]
+        picks = rng.sample(pool, 4)
+        steps = [list(p) + [rng.random() < 0.5] for p in picks]
+        steps += [list(p) + [rng.random() < 0.5] for p in rng.sample(picks, 3)]   # repeats, other order
+        steps += [list(picks[0]) + [True], list(picks[0]) + [False]]
+        rng.shuffle(steps)
+        fresh = [list(p) for p in rng.sample(picks, 2 if rep == 0 or large else 1)]
+        P = dict(key="molgrid.MolGrid:history", nrad=rng.choice([4, 5, 6]), mols=mols, steps=steps, rotate=rng.choice([0, 37, rng.randrange(1, 10 ** 6)]),
+                 array_aim=rep % 2 == 1, seed=rng.randrange(2 ** 31), fresh=fresh, prelude=KINDS_PRELUDE, body=HISTORY_BODY)
+        _run_snippet(ctx, HISTORY_BODY, P, f"oracle:history:{'array-aim' if P['array_aim'] else 'becke'}")
+
+
+AT_BODY = r"""
+from grid.basegrid import LocalGrid
+ats = [LocalGrid(np.array(p, dtype=float).reshape(-1, 3), np.array(w, dtype=float), np.array(c, dtype=float)) for p, w, c in P['grids']]
+atnums = np.array(P['atnums']); n = len(ats); size = sum(g.size for g in ats)
+route, vals = P['aim']
+if route == 'array': aim = np.array(vals, dtype=float)
+elif route == 'callable': aim = (lambda points, atcoords, atnums, indices: np.array(vals, dtype=float))
+else:
+    def aim(points, atcoords, nums, indices):
+        out = np.zeros(len(points))
+        for k in range(len(indices) - 1):
+            out[indices[k]:indices[k + 1]] = 1.0 / (1.0 + float(nums[k]))
+        return out
+try:
+    a = MolGrid(atnums, ats, aim, store=True); b = MolGrid(atnums, ats, aim, store=False)
+except Exception as e:
+    raise AssertionError(f'molgrid.MolGrid:raises :: {type(e).__name__}: {e} on admissible atomic grids and aim weights (input of a correspondence disagreement)')
+ind = [int(x) for x in a.indices]; seg = [(ind[k], ind[k + 1]) for k in range(len(ind) - 1)]
+assert len(ind) == n + 1 and ind[0] == 0 and ind[-1] == a.size == size and all(s <= e for s, e in seg), (
+    f'molgrid.MolGrid.__init__:indices :: index table {ind} is not 0 = i0 <= ... <= iM = size {size}')
+for k, (s, e) in enumerate(seg):
+    assert np.array_equal(a.points[s:e], ats[k].points) and np.array_equal(a.atweights[s:e], ats[k].weights) and np.array_equal(a.atcoords[k], ats[k].center) and e - s == ats[k].size, (
+        f'molgrid.MolGrid.__init__:segments :: points/atweights[{s}:{e}] of the molecular grid are not atomic grid {k}')
+aimw = np.asarray(a.aim_weights, dtype=float)
+assert aimw.shape == (size,) and np.array_equal(a.weights, a.atweights * aimw), 'molgrid.MolGrid.__init__:weights :: weights != atweights * aim_weights'
+f = np.random.default_rng(0).uniform(-1, 1, size)
+total = float(a.integrate(f)) if size else 0.0
+parts = math.fsum(float(ats[k].integrate(aimw[s:e] * f[s:e])) for k, (s, e) in enumerate(seg) if e > s)
+assert abs(total - parts) <= 1e-12 * float(np.sum(np.abs(a.weights * f))) + 1e-300, (
+    f'molgrid.MolGrid.integrate:decomposition :: integrate(f) = {total!r} but the atomic integrals of aim*f sum to {parts!r}')
+for t in ATTRS:
+    assert np.array_equal(np.asarray(getattr(a, t)), np.asarray(getattr(b, t))), f'molgrid.MolGrid.__init__:store :: {t} depends on store'
+for k in range(n):
+    ga, gb = a.get_atomic_grid(k), b.get_atomic_grid(k)
+    assert ga is ats[k], f'molgrid.MolGrid.get_atomic_grid:store-branch :: get_atomic_grid({k}) with store=True is not atomic grid {k}'
+    assert np.array_equal(gb.points, ats[k].points) and np.array_equal(gb.weights, ats[k].weights) and np.array_equal(gb.center, ats[k].center), (
+        f'molgrid.MolGrid.get_atomic_grid:content :: get_atomic_grid({k}) with store=False is not atomic grid {k}')
+    ia, ib = a[k], b[k]
+    assert ia is ats[k] and np.array_equal(ib.points, ats[k].points) and np.array_equal(ib.center, ats[k].center) and np.array_equal(
+        ib.weights, ats[k].weights * aimw[seg[k][0]:seg[k][1]]), (
+        f'molgrid.MolGrid.__getitem__:content :: mg[{k}] is neither the stored AtomGrid nor the aim-weighted segment of atom {k}')
+for bad in (-1, -n - 3):
+    for g in (a, b):
+        try:
+            g.get_atomic_grid(bad); ok = True
+        except ValueError:
+            ok = False
+        assert not ok, f'molgrid.MolGrid.get_atomic_grid:negative :: get_atomic_grid({bad}) not rejected'
+"""
+
+
+def oracle_at(ctx: Ctx, failure):
+    """Evaluate the property itself at an input on which model and implementation disagreed."""
+    w = failure.witness or {}
+    if not isinstance(w, dict):
+        return
+    if "grids" in w and "aimspec" in w:
+        # a small-array case of the correspondence: admissible if every atomic grid is a Grid (as many points as weights),
+        # there is at least one atom, and the aim weights have the grid's size
+        grids = w["grids"]
+        size = sum(len(g[1]) for g in grids)
+        route, vals = w["aimspec"]
+        admissible = (len(grids) >= 1 and all(len(g[0]) == len(g[1]) for g in grids)
+                      and (route == "cbZ" or (route in ("array", "callable") and vals is not None and len(vals) == size)))
+        if not admissible:
+            ctx.info(f"oracle_at: the correspondence disagreed on an input outside the property's quantifier ({failure.key}: "
+                     f"points/weights {w.get('npoints')}/{w.get('sizes')}, aim {w.get('aim')}); no property evaluation there")
+            return
+        P = dict(key="molgrid.MolGrid", grids=grids, atnums=w["atnums"], aim=[route, vals])
+        _run_snippet(ctx, AT_BODY, P, "oracle-at:structure")
+        return
+    if "constructor" in w and "canon" in w:
+        name, canon = w["constructor"], w["canon"]
+        atnums, coords = w.get("atnums"), w.get("coords")
+        if name not in ("from_preset", "from_size", "from_pruned") or not atnums or len(atnums) != len(coords):
+            return
+        toks = [t for t in canon if isinstance(t, str)]
+        forms = {"obj": "single", "list": "list", "dict": "dict-int", "none": "none"}
+        def form_of(tok):
+            return forms.get(tok.split()[0]) if tok.split() and tok.split()[0] in forms and (tok.split()[0] != "list" or int(tok.split()[1]) == len(atnums)) else None
+        rtok = {"from_preset": 4, "from_size": 3, "from_pruned": 7}[name]
+        rf = form_of(str(canon[rtok]))
+        ov = dict(atnums=[int(z) for z in atnums], coords=[list(map(float, c)) for c in coords], store=bool(w.get("store")),
+                  rgrid_form=rf or "single", aim="default")
+        if any(z not in ELEMENTS for z in ov["atnums"]):
+            return
+        if name == "from_preset":
+            ov["preset_form"] = form_of(str(canon[3])) or "single"
+        rot = [c for c in canon if isinstance(c, int) and not isinstance(c, bool)]
+        P = _kinds_params(ctx, name, ov, ["rgrid_form"] + (["preset_form"] if name == "from_preset" else []))
+        P["key"] = f"molgrid.MolGrid.{name}:fanout"
+        P["reject_ok"] = False
+        _run_snippet(ctx, KINDS_BODY, P, f"oracle-at:fanout:{name}")
+
+
 def oracle(ctx: Ctx, budget: str):
     mg, ag, bg, bk, od = _mods()
     _oracle_structure(ctx, budget, mg, ag, bk, od)
     _oracle_fanout(ctx, budget, mg, ag, bk, od)
     _oracle_default_rgrid(ctx, budget, mg)
+    _oracle_kinds(ctx, budget)
+    _oracle_aim_kinds(ctx, budget)
+    _oracle_presets(ctx, budget)
+    _oracle_history(ctx, budget)
     _oracle_end_to_end(ctx, budget, mg, ag)
